@@ -94,6 +94,9 @@ def pp_stmts(stmts, ind=""):
                 out.append(f"{ind}{s[1]}.write({pp_expr(s[2])});")
             else:
                 out.append(f"{ind}{s[1]}.write({pp_expr(s[2])}, when={pp_expr(s[3])});")
+        elif k == "latch":
+            a = f"set={pp_expr(s[3])}, reset={pp_expr(s[4])}" if s[5] else f"reset={pp_expr(s[4])}, set={pp_expr(s[3])}"
+            out.append(f"{ind}{s[1]}.write({pp_expr(s[2])}, {a});")
         elif k == "place":
             props = ""
             if s[5]:
@@ -141,7 +144,8 @@ class Elab:
         if k == "call":
             return self.call(e[1], e[2])
         if k == "read":
-            return ("var", self.lookup(e[1])[1]["im"])
+            m = self.lookup(e[1])[1]
+            return ("var", m["im"])
         if k == "int":
             return e
         return tuple(self.expr(x) if isinstance(x, tuple) else x for x in e)
@@ -194,21 +198,49 @@ class Elab:
             elif k == "func":
                 self.funcs[s[1]] = (s[2], s[3], s[4])
             elif k == "mem":
-                # the cell's content enters the specification as two state variables (the outputs of
-                # its two state-holding combinators) whose sum is what a read sees
+                # the cell's content enters the specification through state variables: the outputs of the
+                # state-holding combinators the compiler emits for it.  Which ones depends on how the cell is
+                # written (look ahead in this statement list):
+                #   gated write     : read = vw + vh           (write gate + hold gate)
+                #   self-referential unconditional write: read = vr (last combinator of the feedback ring), or
+                #                     vw + vh when the compiler keeps the gate pair (decided per blueprint)
+                #   latch           : read = value * bit
                 n = s[1]
+                later = [x for x in stmts if x[0] in ("write", "latch") and x[1] == n]
+                kind = "gated"
+                if later and later[0][0] == "latch":
+                    kind = "latch"
+                elif later and later[0][3] is None and ("'read', '" + n + "'") in repr(later[0][2]):
+                    kind = "ring"
+                m = {"name": n, "sig": s[2], "kind": kind, "data": None, "when": None}
                 self.flat.append(("in", f"_mw_{n}", s[2], 0))
-                iw = len(self.flat) - 1
+                m["iw"] = len(self.flat) - 1
                 self.flat.append(("in", f"_mh_{n}", s[2], 0))
-                ih = len(self.flat) - 1
-                self.flat.append(("sig", f"_m_{n}", ("bin", "+", ("var", iw), ("var", ih))))
-                m = {"name": n, "sig": s[2], "iw": iw, "ih": ih, "im": len(self.flat) - 1, "data": None, "when": None}
+                m["ih"] = len(self.flat) - 1
+                if kind == "gated":
+                    self.flat.append(("sig", f"_m_{n}", ("bin", "+", ("var", m["iw"]), ("var", m["ih"]))))
+                    m["im"] = len(self.flat) - 1
+                elif kind == "ring":
+                    self.flat.append(("in", f"_mr_{n}", s[2], 0))
+                    m["ir"] = len(self.flat) - 1
+                    self.flat.append(("sig", f"_m_{n}", ("var", m["ir"])))
+                    m["im"] = len(self.flat) - 1
+                else:
+                    self.flat.append(("in", f"_ml_{n}", s[2], 0))
+                    m["il"] = len(self.flat) - 1
+                    m["im"] = None  # defined by the latch statement (needs the written value)
                 self.mems[n] = m
                 self.scopes[-1][n] = ("mem", m)
             elif k == "write":
                 m = self.lookup(s[1])[1]
                 m["data"] = self.expr(s[2])
                 m["when"] = self.expr(s[3]) if s[3] is not None else None
+            elif k == "latch":
+                m = self.lookup(s[1])[1]
+                val = self.expr(s[2])
+                self.flat.append(("sig", f"_m_{s[1]}", ("bin", "*", val, ("var", m["il"]))))
+                m["im"] = len(self.flat) - 1
+                m["set"], m["reset"], m["set_first"] = self.expr(s[3]), self.expr(s[4]), bool(s[5])
             elif k == "place":
                 x = self.const_value(self.expr(s[3]))
                 y = self.const_value(self.expr(s[4]))
